@@ -117,6 +117,22 @@ Proof.
   - split; [unfold fn at 1 in Hroot; lra | exact Hin].
 Qed.
 
+(* the sign of a solved effect follows the alternative: non-positive for 'less', non-negative otherwise *)
+Lemma solved_effect_sign n p other : solver_ok ->
+  find_boundary_opt (fun x => p - power n x) (sign_of * 10 * sqrt (v / n)) 10 = Some other ->
+  power n 0 <= p ->
+  let x := rom_solve_power_from_stats fam solver cfg v (Some n) None (Some p) in
+  if alternative_eqb (cfg_alternative cfg) Less then x <= 0 else 0 <= x.
+Proof.
+  intros Hs Hb H0. pose proof (solved_effect_reproduces_power n p other Hs Hb H0) as [_ Hin]. cbv zeta in *.
+  apply find_boundary_from_some in Hb. destruct Hb as [_ [j [_ [Ho _]]]].
+  assert (Hpow : 0 < 10 ^ j) by (apply pow_lt; lra).
+  pose proof (sqrt_pos (v / n)) as Hsq.
+  unfold sign_of in *. destruct (alternative_eqb (cfg_alternative cfg) Less).
+  - assert (other <= 0) by (rewrite Ho; nra). rewrite Rmax_left in Hin by lra. lra.
+  - assert (0 <= other) by (rewrite Ho; nra). rewrite Rmin_left in Hin by lra. lra.
+Qed.
+
 (* solving for the number of observations *)
 Lemma solved_n_obs_reproduces_power e p hi : solver_ok ->
   find_boundary_opt (fun x => p - power x e) (n_lower * 10 / 3) 10 = Some hi ->
